@@ -373,6 +373,7 @@ func (e *episode) runSide(sr sideRun) {
 	}
 	tipT, hT := e.k.Tip()
 	dumpT := chainkit.UtxoDump(e.k.Ch.Unspent)
+	idxBefore := e.indexLen()
 
 	// the side branch: reference first (on the coin map of P), then the real code
 	refS := refP.clone()
@@ -437,6 +438,7 @@ func (e *episode) runSide(sr sideRun) {
 
 	tipF, hF := e.k.Tip()
 	dumpF := chainkit.UtxoDump(e.k.Ch.Unspent)
+	e.idxOff += e.indexLen() - idxBefore // side blocks that stay stored: the model's index does not have them
 	what := func(s string) string {
 		return fmt.Sprintf("side-branch scenario %q (fork depth %d, real: %s; reference: %s): %s", sr.kind, sr.depth, strings.Join(realLog, " | "), refLog, s)
 	}
